@@ -202,8 +202,10 @@ Returns:
                       li < self.n_header_lines):
                     colon_pos = line.find(':')
                     if line[:1] == ' ':
+                        # a continuation line, without its line end (as
+                        # for the special comments above)
                         k = lastattr
-                        v = getattr(self, k, '') + line
+                        v = getattr(self, k, '') + line.rstrip()
                     else:
                         k = line[:colon_pos].strip()
                         v = line[colon_pos + 1:].strip()
@@ -348,7 +350,15 @@ Returns:
                     'TFLAG']
     depvarkeys = [k for k in f.variables.keys() if k != f.INDEPENDENT_VARIABLE]
     myattrs = [k for k in f.ncattrs() if k not in IGNORE_ATTRS]
-    print('%d, %d' % (len(myattrs) + len(depvarkeys) + 15, 1001), file=outfile)
+    # a value of several lines continues on lines that begin with a blank;
+    # the header counts are those of the lines that are written
+    commentlines = []
+    for key in myattrs:
+        lines = ('%s: %s' % (key, getattr(f, key, ''))).split('\n')
+        commentlines.append(lines[0])
+        commentlines.extend([' ' + line.strip() for line in lines[1:]])
+    print('%d, %d' % (len(commentlines) + len(depvarkeys) + 15, 1001),
+          file=outfile)
     print(getattr(f, 'PI_NAME', 'Unknown'), file=outfile)
     print(getattr(f, 'ORGANIZATION_NAME', 'Unknown'), file=outfile)
     print(getattr(f, 'SOURCE_DESCRIPTION', 'Unknown'), file=outfile)
@@ -374,9 +384,9 @@ Returns:
             [key, getattr(var, 'units', 'unknown')]), file=outfile)
 
     print(0, file=outfile)
-    print(len(myattrs), file=outfile)
-    for key in myattrs:
-        print('%s: %s' % (key, getattr(f, key, '')), file=outfile)
+    print(len(commentlines), file=outfile)
+    for line in commentlines:
+        print(line, file=outfile)
 
     vals = [filled(f.variables[f.INDEPENDENT_VARIABLE][:]).ravel()]
     keys = [f.INDEPENDENT_VARIABLE]
